@@ -26,7 +26,7 @@ Chk(name, ante, cond) == IF ante THEN Count(name) /\ (IF cond THEN TRUE ELSE Fla
 Total(ev) == Chk("total", TRUE, ev.out.st \in {"ok", "err"})
 
 ALLSEL == [t |-> "ALL"]
-Empty == [case |-> 0, creds |-> {}, ledger |-> {}, jwks |-> {}, honest |-> {}, holders |-> {}, issuers |-> {}, vpairs |-> {}, ppairs |-> {}, mpairs |-> {}]
+Empty == [case |-> 0, creds |-> {}, ledger |-> {}, jwks |-> {}, honest |-> {}, holders |-> {}, issuers |-> {}, vpairs |-> {}, ppairs |-> {}, mpairs |-> {}, hpairs |-> {}]
 Init == l = 1 /\ st = Empty /\ TLCSet(1, <<>>) /\ TLCSet(2, [c \in {"total"} |-> 0]) /\ TLCSet(3, [n0 |-> 0, mo0 |-> 0, n1 |-> 0, mo1 |-> 0, nd1 |-> 0, dl1 |-> 0, hn0 |-> 0, hmo0 |-> 0, hn1 |-> 0, hmo1 |-> 0, hnd1 |-> 0, hdl1 |-> 0])
 
 Strat(s) == [kind |-> s.kind, paths |-> {s.paths[i].tok : i \in {j \in DOMAIN s.paths : ~s.paths[j].bad}}]
@@ -153,9 +153,12 @@ KnownGood(m) == m # NONE /\ \E h \in st.honest : h.mid[1] = m.jwt.id /\ h.mid[2]
 OnHolderNew(ev) ==
   /\ Total(ev)
   /\ Chk("holder.new", KnownGood(ev.in), ev.out.st = "ok")
-  /\ st' = IF ev.out.st = "ok" /\ ev.in # NONE
-           THEN [st EXCEPT !.holders = {h \in @ : h.inst # ev.inst} \cup {[inst |-> ev.inst, m |-> ev.in, fmt |-> ev.fmt]}]
-           ELSE st
+  \* the holder constructor makes the same decision on the two serializations of one message, honest or tampered (C10)
+  /\ Chk("pair.holder", ev.pair # 0 /\ (\E p \in st.hpairs : p.id = ev.pair), \A p \in {q \in st.hpairs : q.id = ev.pair} : p.ok = (ev.out.st = "ok"))
+  /\ LET st1 == IF ev.pair # 0 THEN [st EXCEPT !.hpairs = @ \cup {[id |-> ev.pair, ok |-> ev.out.st = "ok"]}] ELSE st IN
+     st' = IF ev.out.st = "ok" /\ ev.in # NONE
+           THEN [st1 EXCEPT !.holders = {h \in @ : h.inst # ev.inst} \cup {[inst |-> ev.inst, m |-> ev.in, fmt |-> ev.fmt]}]
+           ELSE st1
 
 \* type consistency over the holder's view (an Abs tree: ABSENT marks an array element whose disclosure is not available)
 RECURSIVE TCH(_,_)
